@@ -36,6 +36,7 @@
 #include "mx.h"
 #include "mx_surgeon.h"
 #include <sys/stat.h>
+#include <time.h>
 
 #ifndef C08_STANDALONE
 size_t LLVMFuzzerMutate(uint8_t *Data, size_t Size, size_t MaxSize);
@@ -846,7 +847,12 @@ static void selfcheck(void)
             if (lane_probe(&g_lanes[i], i, NULL) != 1 || g_lanes[i].thash != h0[i] || g_lanes[i].ncuts != c0[i]) { bad++; fprintf(stderr, "C08-SELFCHECK: lane %s/%s not reproducible\n", g_t->name, g_lanes[i].scn->name); }
         }
         fprintf(stderr, "C08-SELFCHECK: %s lanes=%d", g_t->name, g_nlanes);
-        for (int i = 0; i < g_nlanes; i++) fprintf(stderr, " %s:%d", g_lanes[i].scn->name, g_lanes[i].ncuts);
+        for (int i = 0; i < g_nlanes; i++) {
+            struct timespec a, b; clock_gettime(CLOCK_MONOTONIC, &a);
+            for (int rep = 0; rep < 3; rep++) lane_probe(&g_lanes[i], i, NULL);
+            clock_gettime(CLOCK_MONOTONIC, &b);
+            fprintf(stderr, " %s:%d(%.1fms)", g_lanes[i].scn->name, g_lanes[i].ncuts, ((b.tv_sec - a.tv_sec) * 1e3 + (b.tv_nsec - a.tv_nsec) / 1e6) / 3);
+        }
         fprintf(stderr, "\n");
     }
     fprintf(stderr, "C08-SELFCHECK: %s\n", bad ? "FAILED" : "ok");
